@@ -7,6 +7,7 @@ import (
 	"os"
 	"os/exec"
 	"path/filepath"
+	"runtime"
 	"runtime/debug"
 	"sort"
 	"strconv"
@@ -132,7 +133,18 @@ func runControls(ctx *core.Ctx, prop, dir, verif string) int {
 		out  string
 	}
 	results := make([]res, len(todo))
-	sem := make(chan struct{}, 3)
+	// each child needs ≈ 1.7 GB and ≈ 2 cores; VERIF_CONTROL_JOBS overrides
+	jobs := runtime.NumCPU() / 3
+	if v, err := strconv.Atoi(os.Getenv("VERIF_CONTROL_JOBS")); err == nil && v > 0 {
+		jobs = v
+	}
+	if jobs < 1 {
+		jobs = 1
+	}
+	if jobs > 6 {
+		jobs = 6
+	}
+	sem := make(chan struct{}, jobs)
 	var wg sync.WaitGroup
 	for i, c := range todo {
 		wg.Add(1)
